@@ -88,6 +88,29 @@ func Run(run *ev.Run) {
 	queryValues := []string{"x", "a b", "a&b=c", "100%", "\r\n", "\r\n--boundary\r\nContent-Type: application/json\r\n\r\n{}", "é日本", "=", "&", "%0D%0A", "+", "''", "List(1,2)", strings.Repeat("y", 5000)}
 	bodies := [][]byte{nil, {}, []byte(`{}`), []byte(`{"a":"b"}`), []byte("{\"t\":\"\\r\\n--x\\r\\n\"}"), []byte("--boundary\r\nContent-Type: application/x-www-form-urlencoded\r\n\r\nq=evil\r\n--boundary--\r\n"),
 		[]byte("{\"a\":\"\r\n--\r\n\"}"), bytes.Repeat([]byte(`{"k":"v"} `), 6000)}
+	if run.Thorough() {
+		// PRNG extension of the fixed lists: values glued together from the fragments that matter to the multipart and
+		// form encodings (boundaries, CR / LF, percent signs, separators, non-ASCII), bodies that look like parts
+		frag := []string{"a", "&", "=", "%", "%0D%0A", "\r\n", "--", "--boundary", "\r\nContent-Type: application/json\r\n\r\n", "é", "日", "+", " ", ";", "\"", "List(", ")", ",", "'", "\x00", "\x7f", strings.Repeat("q", 300)}
+		for i := 0; i < 60; i++ {
+			var b strings.Builder
+			for j := 0; j < 1+rng.Intn(6); j++ {
+				b.WriteString(frag[rng.Intn(len(frag))])
+			}
+			queryValues = append(queryValues, b.String())
+		}
+		for i := 0; i < 12; i++ {
+			var b strings.Builder
+			b.WriteString(`{"v":"`)
+			for j := 0; j < 1+rng.Intn(8); j++ {
+				f := frag[rng.Intn(len(frag))]
+				f = strings.NewReplacer("\"", "\\\"", "\r", "\\r", "\n", "\\n", "\x00", "\\u0000", "\x7f", "\\u007f").Replace(f)
+				b.WriteString(f)
+			}
+			b.WriteString(`"}`)
+			bodies = append(bodies, []byte(b.String()))
+		}
+	}
 	for _, m := range []string{"GET", "PUT", "DELETE", "POST"} {
 		for _, qv := range queryValues {
 			for bi, body := range bodies {
@@ -173,6 +196,16 @@ func Run(run *ev.Run) {
 	}
 	paramValues := []string{"", "x", "a&b=c", "\r\n", "--b\r\n", "100%", strings.Repeat("z", 40), "é", strings.Repeat("w", 3000)}
 	e2eBodies := [][]byte{[]byte(`{}`), []byte(`{"a":"\r\n--x--\r\n"}`), bytes.Repeat([]byte(`{"k":"v"} `), 700)}
+	if run.Thorough() {
+		frag := []string{"a", "&", "=", "%", "%0D%0A", "\r\n", "--", "--b", "é", "日", "+", " ", ";", "List(", ")", ",", "'", strings.Repeat("r", 50)}
+		for i := 0; i < 40; i++ {
+			var b strings.Builder
+			for j := 0; j < 1+rng.Intn(6); j++ {
+				b.WriteString(frag[rng.Intn(len(frag))])
+			}
+			paramValues = append(paramValues, b.String())
+		}
+	}
 	for _, c := range calls {
 		for _, pv := range paramValues {
 			q := ""
